@@ -453,6 +453,19 @@ def m_a2b_hex(data):
     return mkbytes([(SymInt.lift(vals[i]) << 4) | vals[i + 1] for i in range(0, len(vals), 2)])
 
 
+def m_b2a_hex(data, *a, **k):
+    """binascii.b2a_hex / hexlify: two lower-case hex digits per octet (exact, no forking)"""
+    if a or k:
+        raise Unsupported("b2a_hex with separator")
+    items = list(data.items) if isinstance(data, SymBytes) else list(bytes(data))
+    out = []
+    for b in items:
+        b = SymInt.lift(b)
+        for nib in ((b >> 4) & 15, b & 15):
+            out.append(ite(nib < 10, nib + 48, nib + 87))
+    return mkbytes(out)
+
+
 def m_len(x):
     return len(x)
 
@@ -590,6 +603,8 @@ MODELS = {
     _base64.encodebytes: m_encodebytes,
     _binascii.b2a_base64: m_b2a_base64,
     _binascii.a2b_hex: m_a2b_hex,
+    _binascii.b2a_hex: m_b2a_hex,
+    _binascii.hexlify: m_b2a_hex,
     _binascii.unhexlify: m_a2b_hex,
     len: m_len,
     int: m_int,
